@@ -10,7 +10,7 @@ from concurrent.futures import ProcessPoolExecutor
 
 import z3
 
-Z3_TIMEOUT_MS = int(os.environ.get('PYVC_Z3_TIMEOUT_MS', '8000'))
+Z3_TIMEOUT_MS = int(os.environ.get('PYVC_Z3_TIMEOUT_MS', '4000'))
 CLI_TIMEOUT_S = int(os.environ.get('PYVC_CLI_TIMEOUT_S', '12'))
 
 
@@ -71,30 +71,115 @@ def solve_one(job):
     return oid, results
 
 
+_fresh = [0]
+
+
+def light_split(th, goal, out=None, depth=0):
+    """Split conjunctions, unfolding a defined predicate only when its body is itself a conjunction."""
+    out = out if out is not None else []
+    if z3.is_and(goal):
+        for c in goal.children():
+            light_split(th, c, out, depth)
+        return out
+    if depth < 4:
+        u = th.unfold(goal)
+        if u is not None and z3.is_and(u):
+            return light_split(th, u, out, depth + 1)
+    out.append(goal)
+    return out
+
+
+def decompose(th, goal, extra=None, out=None, depth=0):
+    """Goal-directed introduction rules: unfold defined predicates, split conjunctions, introduce
+    universals as fresh constants, move antecedents to the hypotheses.  Returns [(extra_hyps, goal)];
+    proving every piece proves the goal."""
+    extra = extra or []
+    out = out if out is not None else []
+    g = goal
+    if depth < 8:
+        if z3.is_and(g):
+            for c in g.children():
+                decompose(th, c, extra, out, depth)
+            return out
+        if z3.is_implies(g):
+            a, b = g.children()
+            return decompose(th, b, extra + [a], out, depth + 1)
+        if z3.is_quantifier(g) and g.is_forall():
+            n = g.num_vars()
+            consts = []
+            for i in range(n):
+                _fresh[0] += 1
+                consts.append(z3.Const('%s!g%d' % (g.var_name(i), _fresh[0]), g.var_sort(i)))
+            body = z3.substitute_vars(g.body(), *reversed(consts))
+            return decompose(th, body, extra, out, depth + 1)
+        u = th.unfold(g)
+        if u is not None:
+            return decompose(th, u, extra, out, depth + 1)
+    out.append((extra, g))
+    return out
+
+
+def _run(jobs, workers):
+    with ProcessPoolExecutor(max_workers=workers) as ex:
+        return list(ex.map(solve_one, jobs, chunksize=1))
+
+
 def discharge(th, obligations, second_backend=False, workers=None):
-    """Solve all obligations in parallel; fills in .status/.backend/.seconds."""
+    """Solve all obligations in parallel; fills in .status/.backend/.seconds.
+    Stage 1: the goal as stated.  Stage 2 (only for goals stage 1 left open): the goal decomposed by
+    introduction rules; the obligation is discharged iff every piece is unsat."""
     axioms = th.all_axioms()
-    jobs = []
-    for o in obligations:
-        jobs.append((o.id, to_smt2(axioms, o.hyps, o.goal), second_backend))
-    by_id = {o.id: o for o in obligations}
     workers = workers or min(16, os.cpu_count() or 4)
+    by_id = {o.id: o for o in obligations}
+    jobs, owner1 = [], {}
+    for o in obligations:
+        o.trace, o.seconds, o.parts1 = [], 0.0, []
+        for n, g in enumerate(light_split(th, o.goal)):
+            pid = '%s/c%d' % (o.id, n)
+            owner1[pid] = o
+            jobs.append((pid, to_smt2(axioms, o.hyps, g), second_backend))
     if not jobs:
         return
-    with ProcessPoolExecutor(max_workers=workers) as ex:
-        for oid, results in ex.map(solve_one, jobs, chunksize=1):
-            o = by_id[oid]
-            o.trace = results
-            o.seconds = sum(r[2] for r in results)
-            verdicts = [r[1] for r in results]
-            if 'unsat' in verdicts:
+    for pid, results in _run(jobs, workers):
+        o = owner1[pid]
+        o.trace.extend(results)
+        o.seconds += sum(r[2] for r in results)
+        verdicts = [r[1] for r in results]
+        ok = 'unsat' in verdicts
+        if ok and second_backend and any(v == 'sat' for v in verdicts):
+            ok = 'disagree'
+        o.parts1.append((ok, verdicts[0] if verdicts else 'unknown',
+                         [r[0] for r in results if r[1] == 'unsat'][:1]))
+    for o in obligations:
+        if all(p[0] is True for p in o.parts1):
+            o.status = 'unsat'
+            o.backend = '+'.join(sorted({b for p in o.parts1 for b in p[2]}))
+        elif any(p[0] == 'disagree' for p in o.parts1):
+            o.status = 'disagree'
+        else:
+            o.status = [p[1] for p in o.parts1 if p[0] is not True][0]
+            o.backend = None
+    open_ = [o for o in obligations if o.status != 'unsat']
+    jobs2, owner = [], {}
+    for o in open_:
+        pieces = decompose(th, o.goal)
+        if len(pieces) == 1 and not pieces[0][0] and pieces[0][1].eq(o.goal):
+            continue
+        o.pieces = []
+        for n, (extra, g) in enumerate(pieces):
+            pid = '%s/p%d' % (o.id, n)
+            owner[pid] = o
+            jobs2.append((pid, to_smt2(axioms, o.hyps + extra, g), False))
+    if jobs2:
+        for pid, results in _run(jobs2, workers):
+            o = owner[pid]
+            ok = any(r[1] == 'unsat' for r in results)
+            o.pieces.append((pid, ok, results))
+            o.seconds += sum(r[2] for r in results)
+        for o in open_:
+            if getattr(o, 'pieces', None) and all(ok for _, ok, _ in o.pieces):
                 o.status = 'unsat'
-                o.backend = [r[0] for r in results if r[1] == 'unsat'][0]
-                if second_backend and any(v == 'sat' for v in verdicts):
-                    o.status = 'disagree'
-            else:
-                o.status = verdicts[0] if verdicts else 'unknown'
-                o.backend = None
+                o.backend = 'decomposed(%d):' % len(o.pieces) + '+'.join(sorted({r[0] for _, _, rs in o.pieces for r in rs if r[1] == 'unsat'}))
 
 
 def check_not_provable(th, hyps, timeout_ms=3000):
